@@ -357,7 +357,14 @@ impl World {
                 // the cache must still be a valid cache that lists nothing the
                 // harness already owns; resynchronise from what it shows
                 self.stats.ev("forget.drain");
-                let obs = match self.observe_side(self.active, Level::Full, false) {
+                let nfails = self.fails.len();
+                let obs = self.observe_side(self.active, Level::Full, false);
+                // whatever is wrong with the cache right after its drain was
+                // forgotten is C17's business ("remains a valid, usable cache")
+                for f in self.fails.iter_mut().skip(nfails) {
+                    if !f.has("C17") { f.tags.push("C17"); }
+                }
+                let obs = match obs {
                     Some(o) => o,
                     None => return,
                 };
